@@ -30,6 +30,7 @@ PROPS["C04"] = dict(
         H("c04_group_store_3", kind="bounded", bound="3 of 16 tracked group senders"),
         H("c04_group_store_full", tier="thorough"),
         H("c04_group_store_any_len", tier="thorough"),
+        H("c04_kf_session_first_counter_zero", expect="known-finding"),
     ],
     functions=[],
     trusted=[],
